@@ -421,7 +421,8 @@ def render(tree, names, style=None):
 # there) nor of a float literal ('e' in '1e-06').
 BASES = ['x', 'y', 'z', 'w', 'v', 'u', 'xx', 'var', 'k_']
 NAME_POOL = ['y', 'z', 'w', 'v', 'u', 'r', 'k', 'd', 'g', 'A', 'B', 'C', 'X', 'Y', 'alpha', 'beta', 'gamma', 'delta',
-             'spam', 'eggs', 'width', 'rho', 'mu', 'y1', 'z0', 'w12', 'r_', 'kk', 'px', 'uv']
+             'spam', 'eggs', 'width', 'rho', 'mu', 'y1', 'z0', 'w12', 'r_', 'kk', 'px', 'uv',
+             'y_1', 'y_2', 'z_3', 'A_1', 'B_2', 'q_10', 'k_0']
 _FUNCS_IN_TEXT = ('abs', 'min', 'max', 'sqrt', 'sin', 'cos', 'exp', 'tanh', 'sum', 'mean', 'inf', 'nan', 'pi', 'e')
 # function-safe subsets (for texts that contain function calls: C13/C14)
 SAFE_BASES = [b for b in BASES if not any(b in f for f in _FUNCS_IN_TEXT)]
